@@ -55,6 +55,7 @@ section .data
 ;;; *_mbinit are initial values for *_dispatched; is updated on first call.
 ;;; Therefore, *_dispatch_init is only executed on first call.
 
+align 8	; the slot is read and written with single 8-byte accesses by racing first calls
 _rolling_hash2_run_until_dispatched:
 	def_wrd      _rolling_hash2_run_until_mbinit
 
